@@ -598,6 +598,76 @@ func c10ThirdSetup(k connCfg) func(c *fw.Ctx, name string) explore.Setup {
 	}
 }
 
+// A Write stuck in the transport (it holds the frame lock), a Ping whose context
+// is cancelled at 300 ms while it waits for that lock, a further Ping with a
+// healthy context at 400 ms, and at 600 ms the cancellation of the Write's own
+// context: the Write must return promptly with an error and the connection
+// must be closed, whatever the two Pings did.
+func c10StolenSetup(k connCfg) func(c *fw.Ctx, name string) explore.Setup {
+	return func(c *fw.Ctx, name string) explore.Setup {
+		return func(w *vs.World) func(bool) {
+			p := vpipe.New()
+			p.Window = 1
+			var errA error
+			var retA bool
+			var cancelAt, retAt int64
+			w.GoHarness("main", true, func() {
+				conn := mkConn(p, k)
+				bg := vctx.Background()
+				conn.CloseRead(bg)
+				ctxA, cancelA := vctx.WithCancel(bg)
+				w.GoHarness("writerA", true, func() {
+					errA = conn.Write(ctxA, websocket.MessageBinary, fill(0xA9, 100))
+					retAt = w.Now
+					retA = true
+				})
+				w.GoHarness("pingerB", false, func() {
+					p.WaitOut("write-begun", func(out []byte) bool { return len(out) > 0 })
+					ctxB, cancelB := vctx.WithTimeout(bg, 300*time.Millisecond)
+					defer cancelB()
+					conn.Ping(ctxB)
+				})
+				w.GoHarness("pingerC", false, func() {
+					vtime.Sleep(400 * time.Millisecond)
+					conn.Ping(bg)
+				})
+				w.GoHarness("cancelA", true, func() {
+					vtime.Sleep(600 * time.Millisecond)
+					cancelAt = w.Now
+					cancelA()
+				})
+				vs.Quiesce()
+			})
+			return func(complete bool) {
+				if !complete {
+					return
+				}
+				role := k.String()
+				if w.Panic != "" {
+					violate(c, w, name, "C10/panic/"+role, w.Panic)
+					return
+				}
+				c.OutcomeStr(fmt.Sprintf("%s|A=%v/%v|closed=%v", name, retA, errA != nil, p.Closed))
+				if !retA {
+					violate(c, w, name, "C10/call-never-returns/Write/cancelled/"+role, fmt.Sprintf("the Write was blocked in the transport when its context was cancelled at 600 ms (a Ping had given up on the frame lock at 300 ms, another Ping arrived at 400 ms); it never returned: stuck %v, connection closed=%v", stuckTasks(w), p.Closed))
+					return
+				}
+				if errA == nil {
+					violate(c, w, name, "C10/cancelled-call-not-prompt/Write/"+role, "the Write returned nil although the transport never accepted its frame")
+					return
+				}
+				if retAt-cancelAt > int64(time.Second) {
+					violate(c, w, name, "C10/cancelled-call-not-prompt/Write/"+role, fmt.Sprintf("the Write returned %v after its context was cancelled", time.Duration(retAt-cancelAt)))
+					return
+				}
+				if !p.Closed {
+					violate(c, w, name, "C10/cancelled-call-leaves-connection-open/Write/blocked-in-transport/"+role, fmt.Sprintf("the Write returned %q but the connection was not closed", errA))
+				}
+			}
+		}
+	}
+}
+
 func c10Api(op string) string {
 	switch op[0] {
 	case 'R':
@@ -688,6 +758,9 @@ func c10Scenarios(tier string) []scenario {
 	}
 	for _, k := range []connCfg{{Client: false}, {Client: true}, {Client: false, Flate: true, Thr: 1}, {Client: true, Flate: true, Thr: 1}} {
 		scs = append(scs, scenario{Name: "cc3/PB+W+W/" + k.String(), Cfg: explore.Config{P: cfg.P, T: 0, E: 0, Horizon: 120e9}, Setup: c10ThirdSetup(k)})
+		if !k.Flate {
+			scs = append(scs, scenario{Name: "cc3/WB+Pgiveup+P/" + k.String(), Cfg: explore.Config{P: cfg.P + 1, T: 1, E: 0, Horizon: 120e9}, Setup: c10StolenSetup(k)})
+		}
 	}
 	return scs
 }
